@@ -71,12 +71,16 @@ func realData(objs []gObj, oids []string, i int, times []int64) []byte {
 			fmt.Fprintf(&b, "parent %s\n", oids[p])
 		}
 		t := times[i]
-		fmt.Fprintf(&b, "author A <a@e> %d +0000\ncommitter C <c@e> %d +0000\n\n", t, t)
+		fmt.Fprintf(&b, "author A <a@e> %d +0000\ncommitter C <c@e> %d +0000\n", t, t)
+		b.WriteString(o.extraHeaders(func(j int) string { return oids[j] }))
+		b.WriteString("\n")
 		b.WriteString(fmt.Sprintf("commit-%d-end\n", i))
 		b.WriteString(strings.Repeat("x", o.pad))
 	case 'g':
 		typ := map[byte]string{'b': "blob", 't': "tree", 'c': "commit", 'g': "tag"}[o.refKind]
-		fmt.Fprintf(&b, "object %s\ntype %s\ntag t%d\ntagger T <t@e> 1 +0000\n\n", oids[o.ref], typ, i)
+		fmt.Fprintf(&b, "object %s\ntype %s\ntag t%d\ntagger T <t@e> 1 +0000\n", oids[o.ref], typ, i)
+		b.WriteString(o.extraHeaders(func(j int) string { return oids[j] }))
+		b.WriteString("\n")
 		b.WriteString(strings.Repeat("x", o.pad))
 	}
 	return b.Bytes()
@@ -371,14 +375,18 @@ func genE2ERepo(r *rng, tier string) ([]gObj, []int64) {
 					ps = append(ps, p)
 				}
 			}
-			objs = append(objs, gObj{kind: 'c', tree: trees[r.n(len(trees))], parents: ps, pad: r.n(300)})
+			c := gObj{kind: 'c', tree: trees[r.n(len(trees))], parents: ps, pad: r.n(300)}
+			genExtra(r, &c, commits, trees)
+			objs = append(objs, c)
 		default:
 			ref := r.n(len(objs))
 			tags := indicesOf(objs, 'g')
 			if len(tags) > 0 && r.coin(1, 2) {
 				ref = tags[r.n(len(tags))]
 			}
-			objs = append(objs, gObj{kind: 'g', ref: ref, refKind: objs[ref].kind, pad: r.n(40)})
+			g := gObj{kind: 'g', ref: ref, refKind: objs[ref].kind, pad: r.n(40)}
+			genExtra(r, &g, nil, nil)
+			objs = append(objs, g)
 		}
 	}
 	// timestamps: random, all equal, or children older than parents
